@@ -172,7 +172,7 @@ func TestC14Edits(t *testing.T) {
 		schema := &jsonapi.Schema{}
 		model := &mSchema{}
 
-		typePool := []string{"a", "b", "ab", "c", ""}
+		typePool := []string{"a", "b", "ab", "c", "", "a_b", "a-b"}
 		attrPool := []string{"x", "y", "xy", "r", ""}
 		relPool := []string{"r", "s", "rs", "a_b", "x", ""}
 
@@ -202,6 +202,7 @@ func TestC14Edits(t *testing.T) {
 		step := func(desc string, wantErr bool, call func() error, apply func()) {
 			history = append(history, desc)
 			before := libSnapshot(schema)
+			strictBefore := oracle.SnapshotSchema(schema)
 
 			var err error
 			if p := oracle.Try(func() { err = call() }); p != nil {
@@ -213,6 +214,12 @@ func TestC14Edits(t *testing.T) {
 
 				if after := libSnapshot(schema); after != before {
 					t.Fatalf("C14 violated: %s returned the error %q but changed the schema\nbefore: %s\nafter:  %s\nhistory: %s", desc, err, before, after, strings.Join(history, "; "))
+				}
+
+				// "Exactly as it was": also what the library's own Type.Equal
+				// tells apart (a nil map from an empty one, a constructor).
+				if after := oracle.SnapshotSchema(schema); after != strictBefore {
+					t.Fatalf("C14 violated: %s returned the error %q but changed the schema (in a way Type.Equal can tell)\nbefore: %s\nafter:  %s\nhistory: %s", desc, err, strictBefore, after, strings.Join(history, "; "))
 				}
 			}
 
@@ -366,6 +373,23 @@ func TestC14Edits(t *testing.T) {
 				if len(model.types) > 0 && rapid.Bool().Draw(t, "existingTypes") {
 					rel.FromType = model.types[rapid.IntRange(0, len(model.types)-1).Draw(t, "ia")].name
 					rel.ToType = model.types[rapid.IntRange(0, len(model.types)-1).Draw(t, "ib")].name
+				}
+
+				// Names chosen so that "type, separator, name" reads the same
+				// on both ends although the ends differ (a + _ + b_r against
+				// a_b + _ + r): two ends are the same only if both parts are.
+				if rapid.IntRange(0, 3).Draw(t, "concat") == 0 {
+					for _, sep := range []string{"_", "", "-", "."} {
+						if x := strings.TrimPrefix(rel.ToType, rel.FromType+sep); x != rel.ToType && x != "" && rel.ToName != "" {
+							rel.FromName = x + sep + rel.ToName
+							break
+						}
+
+						if x := strings.TrimPrefix(rel.FromType, rel.ToType+sep); x != rel.FromType && x != "" && rel.FromName != "" {
+							rel.ToName = x + sep + rel.FromName
+							break
+						}
+					}
 				}
 
 				if rel.FromType == rel.ToType && rel.FromName == rel.ToName {
